@@ -14,7 +14,7 @@ def lattice_loops(ctx, rnd):
     cases = []
     allp = set(range(1, 27))
     # N = 1: 26 directions (every one primitive); loops over a seed-chosen subset, all 26 points queried
-    runs = [(1, 10, 5)] if q else [(1, 13, 5), (1, 26, 4), (1, 12, 5)]
+    runs = [(1, 9, 5)] if q else [(1, 13, 5), (1, 26, 4), (1, 12, 5)]
     for n, k, maxlen in runs:
         sub = set(rnd.sample(range(1, 27), k))
         r = ctx.tlc("Gen_InLoop", vlib.cfg(constants={"N": n, "SubIdx": sub, "ProbeIdx": allp, "MaxLen": maxlen},
@@ -22,7 +22,7 @@ def lattice_loops(ctx, rnd):
         cases += r.tagged.get("CASE", [])
     # N = 2: 98 primitive directions; sub-lattices
     for _ in range(1 if q else 4):
-        sub = set(rnd.sample(range(1, 99), 8 if q else 11))
+        sub = set(rnd.sample(range(1, 99), 7 if q else 11))
         probes = sub | set(rnd.sample(range(1, 99), 40))
         r = ctx.tlc("Gen_InLoop", vlib.cfg(constants={"N": 2, "SubIdx": sub, "ProbeIdx": probes, "MaxLen": 4 if q else 5},
                                              invariants=INLOOP_INV), workers=12, timeout=2400, heap="8g")
@@ -38,7 +38,7 @@ def grid_regions(ctx, rnd):
     fams = ["rect", "face", "hole1", "hole2", "island", "facehole", "stair", "ell"]
     # (G, families, faces, steps, prove local rules)
     if q:
-        plan = [(2, fams, 6, [1, 2], True), (3, fams, 3, [1, 3], True), (4, ["rect", "hole1", "hole2", "stair", "ell", "face"], 2, [1, 6], False),
+        plan = [(3, fams, 3, [1, 3], True), (4, ["rect", "hole1", "hole2", "stair", "ell", "face"], 2, [1, 6], False),
                 (5, ["rect", "hole1", "face"], 1, [1], False)]
     else:
         plan = [(2, fams, 6, [1, 2, 4], True), (3, fams, 6, [1, 3, 8], True), (3, fams, 6, [1, 2], True),
@@ -57,8 +57,7 @@ def grid_regions(ctx, rnd):
 def tilings(ctx, rnd):
     q = ctx.quick()
     if q:
-        plan = [(2, ["cells", "guillotine", "ring", "strips", "wholeface"], 2), (3, ["guillotine", "ring", "strips"], 2),
-                (4, ["guillotine", "ring"], 1)]
+        plan = [(2, ["cells", "guillotine", "ring", "strips", "wholeface"], 2), (4, ["guillotine", "ring"], 1)]
     else:
         plan = [(1, ["cells", "wholeface"], 6), (2, ["cells", "guillotine", "ring", "strips", "wholeface"], 6),
                 (3, ["cells", "guillotine", "ring", "strips"], 6),
